@@ -14,7 +14,7 @@ CfgOf(e) == [owner |-> e.owner, fmt |-> e.fmt, sep |-> e.sep, header |-> e.heade
 EmptyFS == [p \in {} |-> 0]
 WriteFS(fs, e) ==
   [p \in DOMAIN fs \cup {<<e.stem, e.suffix>>} |->
-     IF p = <<e.stem, e.suffix>> THEN [cfg |-> CfgOf(e), c |-> e.c, comp |-> CompOf(e.suffix)] ELSE fs[p]]
+     IF p = <<e.stem, e.suffix>> THEN [cfg |-> CfgOf(e), c |-> e.c, comp |-> CompOf(e.suffix), ext |-> e.ext] ELSE fs[p]]
 Readable(fs, e) == <<e.stem, e.suffix>> \in DOMAIN fs /\ fs[<<e.stem, e.suffix>>].cfg = CfgOf(e)   \* options used consistently
 
 (* ---- invariants of the model ---- *)
@@ -27,10 +27,15 @@ AsMapEq(a, b) == Range(a.cols) = Range(b.cols) /\ Len(a.cols) = Len(b.cols) /\ \
 
 (* ---- verdicts on recorded steps ----
    write step:  e.obs = [err, exists, magic]
-   read step:   e.obs = [err, frame, kinds_same, alias_same]; e.cols = requested restriction (<<>> = all)      *)
+   read step:   e.obs = [err, frame, kinds_same, alias_same, cast_ok]; e.cols = requested restriction (<<>> = all);
+                e.cast = "" | "float" (column a) | "object" | "str" (column c): a dtype / type mapping leaves every cell
+                (value class and missing positions, judged by the representation of the mapped dtype) where it was   *)
 BinaryFmt(fmt) == fmt \in {"pickle", "npz", "parquet"}
+(* e.ext: the file was produced by another program (pyarrow / csv module), not by the library's writer:
+   nothing of the library is judged at that step, but reads of the file are (C14: restriction, mapping, alias). *)
 JudgeWrite(e) ==
-  IF e.obs.err # "" THEN "write:raised"
+  IF e.ext THEN ""
+  ELSE IF e.obs.err # "" THEN "write:raised"
   ELSE IF ~e.obs.exists THEN "write:file-not-at-the-given-path"
   ELSE IF e.obs.magic # CompOf(e.suffix) THEN "write:not-really-compressed-as-the-suffix-says"
   ELSE ""
@@ -44,7 +49,7 @@ JudgeRead(fs, contents, e) ==
   ELSE IF ~AsMapEq(e.obs.frame, exp) THEN
        (IF e.cols = <<>> THEN "read:values-or-missing-positions-differ" ELSE "read:restricted-read-differs-from-read-all-then-select")
   ELSE IF BinaryFmt(e.fmt) /\ ~e.obs.kinds_same THEN "read:binary-format-changed-a-dtype"
-  ELSE IF e.cast /\ ~e.obs.cast_ok THEN "read:dtype-mapping-not-applied-to-its-column"
+  ELSE IF e.cast # "" /\ ~e.obs.cast_ok THEN "read:dtype-mapping-not-applied-to-its-column"
   ELSE IF ~e.obs.alias_same THEN "read:module-level-alias-differs-from-class-method"
   ELSE ""
 =============================================================================
